@@ -415,7 +415,7 @@ class Printer:
 
     def element(self, d: Dict[str, Any]) -> List[str]:
         return {'table': self.table, 'enum': self.enum, 'ref': self.ref, 'group': self.group,
-                'sticky': self.sticky, 'project': self.project}[d['d']](d)
+                'sticky': self.sticky, 'project': self.project, 'raw': lambda x: [x['text']]}[d['d']](d)
 
     def lines(self, doc: List[Dict[str, Any]]) -> List[str]:
         out: List[str] = []
